@@ -171,7 +171,30 @@ def run_case(case, res):
     testset_classes = list(cl.get_calculated_classes_testset())
     ncalls = rng.randint(2, 7)
     removed_any = False
+    def scaled_call(where):
+        """A data set that already carries the learning scaling (handed out by the object itself) is evaluated as it is."""
+        ds = cl.get_testing_data()
+        if ds.is_empty():
+            ds = cl.get_learning_data()
+        if ds.is_empty():
+            return
+        S0 = np.asarray(ds[0], dtype=float).reshape(-1, d).copy()
+        try:
+            with contextlib.redirect_stdout(io.StringIO()):
+                out = cl(ds, print_removed=False)
+        except ValueError as ex:
+            res.note("already_scaled_set_rejected:" + str(ex)[:40])
+            return
+        Sout, cls = np.asarray(out[0], dtype=float).reshape(-1, d), np.asarray(out[1])
+        same = Sout.shape == S0.shape and bool(np.all(np.abs(Sout - S0) <= 1e-12))
+        res.check("already_scaled_set_not_rescaled", same, "C19_already_scaled_set_scaled_again",
+                  "%s: a data set in the learning scaling (from the object's own getter) comes back at other positions" % where, cfg)
+        if same:
+            judge_classes(S0, cls, where)
+
     for ci in range(ncalls):
+        if rng.random() < 0.2:
+            scaled_call("scaled_call#%d" % ci)
         if rng.random() < 0.35:
             # the user works with the COPIES handed out by the getters (looks at held-out samples in original coordinates,
             # rescales them, ...): nothing of this may change the scaling fixed at learning time
